@@ -791,6 +791,11 @@ class Engine:
                 assoc_path(new_flow, path, dependencies)
             for path, process in process_updates:
                 assoc_path(self.processes, path, process)
+                # A step published under this path (a legacy deriver
+                # that arrived through a move, say) is the one being
+                # replaced: it must not stay published next to its
+                # successor.
+                delete_in(self.steps, path)
                 self._add_process_path(process, path, new_flow)
                 # A process that replaces another one under the same
                 # path starts afresh as well.
@@ -802,6 +807,7 @@ class Engine:
             for path, step in step_updates:
                 dependencies = flow_update_dict.get(path)
                 assoc_path(self.steps, path, step)
+                delete_in(self.processes, path)
                 self._add_step_path(step, path, dependencies)
 
         if deletions:
